@@ -30,4 +30,14 @@ TEXTS = {
         "level_text": "Sampled pairs from eight structured families (general, identical, almost identical = GitHub #84, nested, touching/edge sharing, right-angle crossing, around the too_far radius, axis-aligned) at coordinate scales 10..1e4; each pair is checked for area, IoU formula, range, symmetry, presence/absence, too_far soundness, closed-form agreement and rigid-motion invariance.",
         "level_note": "Trusts the f64 reference algorithm; presence/absence and closed-form agreement are only judged outside stated bands; tolerances have >=40x head-room over the largest error seen on the repaired tree.",
     },
+    "C14": {
+        "technique": "runtime invariant monitor on nms() outputs (pointer-identity mapping to inputs) with an f64 coverage reference and an idempotence re-application",
+        "level_text": "2e4 (quick) to 1e6 (thorough) generated lists of 0..40 boxes in clustered / sparse / nested / duplicated / mixed styles with all score / threshold modes and invalid boxes mixed in; every output is checked for subset+filter, rank order, top-ranked kept, kept-not-covered, dropped-covered and nms(nms(x)) == nms(x).",
+        "level_note": "Coverage decisions within 1e-4 of the threshold are not judged (counted). Rank ties: only non-increasing order is required.",
+    },
+    "C15": {
+        "technique": "runtime differential oracle: exact unit-cell counting (integer boxes) and f64 inclusion-exclusion over convex intersections (self-checked by stratified sampling), permutation metamorphic check, panic containment with known-finding classification",
+        "level_text": "6e3 (quick) to 3e5 (thorough) sets of 1..8 boxes from integer-grid, axis-aligned, rotated and near-degenerate families. Shares are compared per box with the reference, range-checked and re-computed under a random permutation. A panic below exclusively_owned_areas is caught and reported as a violation unless it is exactly the recorded known finding (panic inside geo-0.27 boolean ops AND a near-coincident edge pair in the input).",
+        "level_note": "Trusts the f64 reference (a dense-sampling arbiter runs on every disagreement and on every 50th case). The geo-0.27 sweep-line panic on near-coincident edges is a recorded, unrepaired finding (known_findings.json).",
+    },
 }
